@@ -85,9 +85,20 @@ StatEntryOK(O, e) ==
             \* the two identities the property names
             /\ SumOf(ToSet(e.val), LAMBDA x : x[2]) = (IF Len(ev) = 0 THEN 0 ELSE Len(ev) - 1)
             /\ SumOf(ToSet(e.val), LAMBDA x : x[1] * x[2]) = (IF Len(ev) = 0 THEN 0 ELSE ev[Len(ev)][4] - ev[1][4])
+    \* beyond the listed properties (X17): inter_event_time_distribution(u, v) is the histogram of the gaps between
+    \* the consecutive boundary instants of the pair's timeline (start and end of every interval; a one-instant
+    \* interval contributes one instant)
+    [] e.fn = "x_iet_pair" ->
+         LET tls == { x \in ToSet(O.tl) : (x.u = e.u /\ x.v = e.v) \/ (x.u = e.v /\ x.v = e.u) }
+             iv  == IF tls = {} THEN <<>> ELSE (CHOOSE x \in tls : TRUE).iv
+             pts == FlattenSeq([i \in DOMAIN iv |-> IF iv[i][1] = iv[i][2] THEN <<iv[i][1]>> ELSE <<iv[i][1], iv[i][2]>>])
+             g   == [i \in 1 .. (Len(pts) - 1) |-> pts[i + 1] - pts[i]]
+             h   == { <<d, Card({ i \in DOMAIN g : g[i] = d })>> : d \in { g[i] : i \in DOMAIN g } }
+         IN e.k = "hist" /\ ToSet(e.val) = h /\ Len(e.val) = Card(h)
     [] OTHER -> FALSE
 
+StatName(fn) == IF Len(fn) > 2 /\ SubSeq(fn, 1, 2) = "x_" THEN "X17_" \o SubSeq(fn, 3, Len(fn)) ELSE "C17_" \o fn
 StatsTable(O, es) ==
   LET names == { es[i].fn : i \in DOMAIN es } IN
-  { <<"C17_" \o nm, St(\A i \in { j \in DOMAIN es : es[j].fn = nm } : StatEntryOK(O, es[i]))>> : nm \in names }
+  { <<StatName(nm), St(\A i \in { j \in DOMAIN es : es[j].fn = nm } : StatEntryOK(O, es[i]))>> : nm \in names }
 =============================================================================
